@@ -95,8 +95,33 @@ def shrink(world, q, steps, contents, same):
     return cur
 
 
+CTE_RE = re.compile(r'^WITH (\w+) AS \(SELECT .*? FROM (\w+)\.(\w+)', re.I)
+
+
+def cte_sigs(q, steps, f):
+    """two narrow classes around a CTE whose name equals the name of a real table (static predicates on query + plan)"""
+    from mindsdb_sql.planner import steps as S
+    m = CTE_RE.match(q.body)
+    if not m:
+        return []
+    name, src_int, src_tab = m.group(1).lower(), m.group(2).lower(), m.group(3).lower()
+    dn = g.CATALOGS[q.catalog].get('default_namespace')
+    fetches = [s for s in steps if isinstance(s, S.FetchDataframeStep)]
+    # (a) whole statement sent to the source integration, qualifier stripped: the CTE now refers to itself
+    if name == src_tab and len(steps) == 1 and fetches and fetches[0].integration == src_int \
+            and 'circular reference' in (f.get('exec_error') or ''):
+        return ['cte-shadow/own-source-table-pushdown-circular']
+    # (b) a QUALIFIED table `<default_namespace>.<cte name>` is taken for the CTE
+    if dn and re.search(r'\b%s\.%s\b' % (re.escape(dn), re.escape(name)), q.body[m.end(1):], re.I) \
+            and not any(s.integration == dn and re.search(r'\bFROM %s\b' % re.escape(name), str(s.query), re.I) for s in fetches):
+        return ['cte-shadow/qualified-table-in-default-namespace']
+    return []
+
+
 def attribute(world, q, steps, f):
     sigs, a = cz.analyse(world, q, steps, g.CATALOGS[q.catalog], f['_F'], g.compare)
+    if not sigs:
+        sigs = cte_sigs(q, steps, f)
     f['sigs'] = sigs
     f['pushdowns_in_plan'] = a.kinds()
     return sigs
@@ -303,6 +328,32 @@ SEEDS = [
 ]
 
 
+# fixed regression cases with hand-made contents: (catalog, body, order_pos, order_sql, limit, contents)
+CASES = [
+    # CTE named like a real table of ANOTHER integration that is used (qualified) in the same statement
+    ('default', 'WITH tc AS (SELECT id, x, y FROM int1.ta) SELECT tc.x, b.y FROM tc JOIN int2.tc AS b ON tc.id = b.id', [], '', None,
+     {('int1', 'ta'): [(1, 0, 0)], ('int2', 'tc'): [(1, 2, 2)]}),
+    ('project', 'WITH tc AS (SELECT id, x, y FROM int1.ta) SELECT tc.x, b.y FROM int2.tc AS b JOIN tc ON tc.id = b.id', [], '', None,
+     {('int1', 'ta'): [(1, 0, 0)], ('int2', 'tc'): [(1, 2, 2), (2, 1, 1)]}),
+    ('default', 'WITH ta AS (SELECT id, x, y FROM int1.ta WHERE x = 0) SELECT ta.x, ta.y FROM ta', [], '', None,
+     {('int1', 'ta'): [(1, 0, 0), (2, 1, 1)]}),
+    # multi-key ORDER BY + LIMIT over a LEFT JOIN, ties in the leading key across the limit boundary
+    ('names', 'SELECT p.x, q.y FROM int1.ta AS p LEFT JOIN int2.tc AS q ON p.id = q.id', [0, 1], ' ORDER BY p.x, q.y', 1,
+     {('int1', 'ta'): [(1, 0, 0), (2, 0, 0)], ('int2', 'tc'): [(1, 0, 2), (2, 0, 1)]}),
+    ('names', 'SELECT p.x, q.y FROM int1.ta AS p LEFT JOIN int2.tc AS q ON p.id = q.id', [0, 1], ' ORDER BY p.x, q.y', 1,
+     {('int1', 'ta'): [(2, 0, 0), (1, 0, 0)], ('int2', 'tc'): [(1, 0, 2), (2, 0, 1)]}),
+    ('names', 'SELECT p.x, q.y FROM int1.ta AS p LEFT JOIN int2.tc AS q ON p.id = q.id', [0, 1], ' ORDER BY p.x DESC, q.y DESC', 2,
+     {('int1', 'ta'): [(1, 1, 0), (2, 1, 0), (3, 1, 0)], ('int2', 'tc'): [(1, 0, 0), (2, 0, 1), (3, 0, 2)]}),
+    ('names', 'SELECT p.x, q.y FROM int1.ta AS p LEFT JOIN int2.tc AS q ON p.id = q.id', [0, 1], ' ORDER BY p.x DESC, q.y DESC', 2,
+     {('int1', 'ta'): [(3, 1, 0), (2, 1, 0), (1, 1, 0)], ('int2', 'tc'): [(1, 0, 0), (2, 0, 1), (3, 0, 2)]}),
+]
+
+
+def case_queries():
+    for cat, body, op, osql, lim, contents in CASES:
+        yield g.Q('case', cat, body, op, osql, lim, None, sorted(contents), feats=['case']), contents
+
+
 def seed_queries():
     for cat, body, lim in SEEDS:
         tabs = [(i, t) for (i, t) in g.TABLES if '%s.%s' % (i, t) in body]
@@ -387,6 +438,8 @@ def run(chk):
     t0 = time.time()
     for q in seed_queries():
         probe_query(chk, world, q, g.all_contents_small(q.tables), dist, max_fail_per_query=2)
+    for q, contents in case_queries():
+        probe_query(chk, world, q, [contents], dist)
     replay_kf(chk, world)
     rng = common.rng_for(chk.seed, 'C08/probe')
     nq, nc, maxrows = (2400, 8, 2) if not deep else ((12000, 24, 3) if not quick else (4000, 16, 3))
@@ -394,8 +447,11 @@ def run(chk):
     done = 0
     for i in range(nq):
         q = g.gen_query(rng)
-        probe_query(chk, world, q, (g.gen_contents(rng, q.tables, maxrows if rng.random() < 0.8 else maxrows - 1)
-                                    for _ in range(nc)), dist)
+        if 'ties' in q.feats:
+            cs = (g.gen_contents_ties(rng, q.tables, maxrows + 1) for _ in range(nc + 4))
+        else:
+            cs = (g.gen_contents(rng, q.tables, maxrows if rng.random() < 0.8 else maxrows - 1) for _ in range(nc))
+        probe_query(chk, world, q, cs, dist)
         done += 1
         if time.time() - t0 > budget:
             chk.notes.append('probe stopped by its time budget after %d of %d queries' % (done, nq))
